@@ -101,6 +101,7 @@ MCInit ==
           u \in (IF MCGrid = "modes" THEN MCOwners ELSE {Keep}),
           g \in (IF MCGrid = "modes" THEN MCOwners ELSE {Keep}),
           pre \in 1..3, ty \in Types :
+         \* (MCGrid = "full": one configuration, every history of lengths on a disk of DiskBlocks blocks)
          /\ cfg = [mode |-> [t \in Types |-> CASE t = "pk" -> mpk [] t = "crt" -> mcrt [] OTHER -> {"ur", "uw"}],
                    uid |-> [t \in Types |-> u], gid |-> [t \in Types |-> g], umask |-> um, pre |-> pre, type |-> ty]
          /\ file = [t \in Types |-> CASE pre = 1 -> NoFile [] pre = 2 -> MCPre2 [] OTHER -> MCPre3]
@@ -114,7 +115,22 @@ MCWrite ==
          /\ Write(t, data, AtReturn(t, data), Computed(t, data))
          /\ hist' = Append(hist, [type |-> t, len |-> n])
 
-MCSpec == MCInit /\ [][MCWrite]_vars
+(* A disk that is full: nothing can be written beyond DiskBlocks blocks (model checking: MCGrid = "full").  write_file *)
+(* then reports an error and nothing is claimed about the file - unless the error is swallowed (sync_all instead of     *)
+(* flush does not report a failed write of tokio's background thread), in which case the partial file is presented as   *)
+(* the new content.                                                                                                      *)
+DiskBlocks == 1
+MCWriteFull ==
+    /\ MCGrid = "full" /\ Len(hist) < MaxOps
+    /\ \E t \in {cfg.type}, n \in Lens :
+         LET data == [fill |-> Len(hist) + 1, len |-> n]
+             part == [Computed(t, data) EXCEPT !.runs = IF n > DiskBlocks THEN <<[fill |-> data.fill, len |-> DiskBlocks]>> ELSE <<data>>]
+         IN /\ IF n <= DiskBlocks \/ "WriteErrorSwallowed" \in Deviations
+               THEN Write(t, data, part, part)                                  \* reported as written
+               ELSE /\ file' = [file EXCEPT ![t] = part] /\ last' = [last EXCEPT ![t] = <<>>] /\ bad' = {} /\ UNCHANGED cfg
+            /\ hist' = Append(hist, [type |-> t, len |-> n])
+
+MCSpec == MCInit /\ [][(MCGrid # "full" /\ MCWrite) \/ MCWriteFull]_vars
 
 NoBad == bad \cap Enforce = {}
 
